@@ -693,7 +693,25 @@ class _HTTPConnection(httputil.HTTPMessageDelegate):
             self._release()
             assert self.client is not None
             fut = self.client.fetch(new_request, raise_error=False)
-            fut.add_done_callback(lambda f: final_callback(f.result()))
+
+            def on_redirect_done(f: "Future[HTTPResponse]") -> None:
+                # raise_error=False only covers errors that are HTTP status
+                # codes; a follow-up request that fails without a response
+                # (refused, timed out, malformed) must still complete the
+                # original fetch.
+                try:
+                    response = f.result()
+                except Exception as e:
+                    response = HTTPResponse(
+                        original_request,
+                        599,
+                        error=e,
+                        request_time=self.io_loop.time() - self.start_time,
+                        start_time=self.start_wall_time,
+                    )
+                final_callback(response)
+
+            fut.add_done_callback(on_redirect_done)
             self._on_end_request()
             return
         if self.request.streaming_callback:
